@@ -1,13 +1,172 @@
-//! C02 — not implemented yet (stub so that props/mod.rs never has to change).
-use crate::engine::PropSpec;
+//! C02 — Forget and prune never lose data still referenced by a snapshot.
+//!
+//! Generated: histories of backup / forget / prune (all prune options) plus craft operations that
+//! create the repository shapes named in the quantifier (duplicate blobs, duplicate index entries,
+//! unreferenced packs, already-marked packs, blobs re-used from marked packs, tree/data id sharing).
+//! Oracle: a model of every live snapshot, checked after *every* operation through a fresh handle;
+//! `check --read-data` after every prune and at the end; the two-phase-deletion invariant.
+
+use proptest::prelude::*;
+use serde::{Deserialize, Serialize};
+
+use crate::{
+    engine::{Ctx, DynSub, Outcome, PropSpec, Sub},
+    r#gen::tree,
+    history::{HOp, PruneCfg, World, hop},
+    model::MNode,
+    repo::{CheckVerdict, RepoCfg, repo_cfg},
+};
+
+#[derive(Debug, Clone, Serialize, Deserialize)]
+pub struct Case {
+    pub cfg: RepoCfg,
+    pub tree: MNode,
+    pub ops: Vec<HOp>,
+}
+
+fn strategy(ctx: &Ctx) -> BoxedStrategy<Case> {
+    let len = if ctx.tier.is_thorough() { 16 } else { 9 };
+    repo_cfg()
+        .prop_flat_map(move |cfg| {
+            let mut p = super::c07::params(&cfg);
+            p.file_cap = 200_000;
+            (Just(cfg), tree(p), prop::collection::vec(hop(p, true), 2..=len))
+        })
+        .prop_map(|(cfg, tree, ops)| Case { cfg, tree, ops })
+        .boxed()
+}
+
+/// Run a history with the C02 invariants; shared with other properties that only need the final
+/// state (they pass `judge = false` and get the world back).
+pub fn run_history(c: &Case, out: &mut Outcome) -> Result<World, String> {
+    let mut w = World::new(&c.cfg, &c.tree)?;
+    // every history starts with one backup so that there is something to lose
+    let first = HOp::Backup {
+        edits: vec![],
+        parent: false,
+    };
+    let mut ops: Vec<&HOp> = vec![&first];
+    ops.extend(c.ops.iter());
+    for (i, op) in ops.iter().enumerate() {
+        let packs_before = w.packs();
+        let view_before = w.index().map_err(|e| format!("op #{i}: index unreadable before the operation: {e}"))?;
+        let info = w.step(op).map_err(|e| format!("op #{i} {}: {e}", op_name(op)))?;
+        w.verify_snapshots()
+            .map_err(|e| format!("after op #{i} {}: {e}", op_name(op)))?;
+        let view = w.index().map_err(|e| format!("after op #{i}: index unreadable: {e}"))?;
+        let packs_after = w.packs();
+        // every pack an index file lists must exist
+        for p in view.packs.keys().chain(view.marked.keys()) {
+            if !packs_after.contains(p) {
+                return Err(format!(
+                    "after op #{i} {}: pack {} is listed by the index but not in storage",
+                    op_name(op),
+                    &hex::encode(p)[..8]
+                ));
+            }
+        }
+        let prune_cfg: Option<&PruneCfg> = match op {
+            HOp::Prune(p) => Some(p),
+            HOp::PruneThenStaleBackup { prune, .. } => Some(prune),
+            _ => None,
+        };
+        if let Some(p) = prune_cfg {
+            if !p.instant_delete {
+                // two-phase deletion: a pack may disappear only if it was already marked before
+                // this prune and the keep-delete time (0) has passed
+                for gone in packs_before.difference(&packs_after) {
+                    let was_marked = view_before.marked.contains_key(gone);
+                    if !(was_marked && !p.keep_delete_23h) {
+                        return Err(format!(
+                            "after op #{i}: a non-instant prune (keep-delete {}) removed pack {} which was {}",
+                            if p.keep_delete_23h { "23h" } else { "0" },
+                            &hex::encode(gone)[..8],
+                            if was_marked { "marked only moments ago" } else { "not marked for deletion before" }
+                        ));
+                    }
+                }
+                if !view.marked.is_empty() {
+                    w.repacked_or_marked = true;
+                    *out = std::mem::take(out).class("prune_marked_packs");
+                }
+                for (pid, _) in &view.marked {
+                    let f = view
+                        .files
+                        .values()
+                        .flat_map(|f| &f.packs_to_delete)
+                        .find(|ip| vpcore::fmt::parse_id(&ip.id).as_ref() == Some(pid));
+                    if f.is_some_and(|ip| ip.time.is_none()) {
+                        return Err(format!("after op #{i}: pack {} is marked for deletion without a time", &hex::encode(pid)[..8]));
+                    }
+                }
+            }
+            if packs_after.difference(&packs_before).next().is_some() {
+                *out = std::mem::take(out).class("prune_repacked");
+            }
+        }
+        if (info.was_prune || i + 1 == ops.len()) && !w.has_pending() {
+            match w.check(true) {
+                CheckVerdict::Clean => {}
+                CheckVerdict::Inconclusive(_) => *out = std::mem::take(out).class("check_inconclusive"),
+                CheckVerdict::Errors(e) => {
+                    return Err(format!("after op #{i} {}: {e}", op_name(op)));
+                }
+            }
+        }
+    }
+    Ok(w)
+}
+
+pub fn op_name(op: &HOp) -> &'static str {
+    match op {
+        HOp::Backup { .. } => "backup",
+        HOp::Forget { .. } => "forget",
+        HOp::Prune(_) => "prune",
+        HOp::DupBackup { .. } => "backup-by-two-handles",
+        HOp::DupIndex { .. } => "duplicate-index-file",
+        HOp::CutBackup { .. } => "interrupted-backup",
+        HOp::PruneThenStaleBackup { .. } => "prune-then-backup-on-stale-handle",
+    }
+}
+
+pub fn run(c: &Case, _ctx: &Ctx) -> Outcome {
+    let mut out = Outcome::pass();
+    for op in &c.ops {
+        out = out.class(format!("op_{}", op_name(op)));
+    }
+    match run_history(c, &mut out) {
+        Ok(w) => {
+            out.nontrivial = w.prunes_after_forget > 0 || w.craft_before_prune;
+            out = out
+                .class_if(w.prunes_after_forget > 0, "prune_after_forget")
+                .class_if(w.recovered > 0, "snapshot_recovered_by_prune");
+            out
+        }
+        Err(e) => {
+            out.failure = Some(e);
+            out
+        }
+    }
+}
 
 pub fn spec() -> PropSpec {
     PropSpec {
         id: "C02",
         level: "exploration",
-        rule: "",
-        assumptions: vec![],
-        subs: vec![],
+        rule: "proptest: configuration x source tree x history of 2–9 (quick) / 2–16 (thorough) operations after an initial backup: backup of the edited source (with or without parent), forget of a generated subset, prune with generated options (max-unused 0 %/1–99 %/size/unlimited, max-repack weighted to unlimited, keep-pack 0/1 h, keep-delete 0/23 h, instant-delete, early-delete-index only with instant-delete, fast-repack, repack-all, repack-uncompressed on v2, no-resize, repack-cacheable-only), and craft operations: the same state backed up by two handles that loaded the index before (duplicate blobs), an index file stored twice (duplicate entries), a backup cut after 0–13 storage writes (unreferenced packs), a backup on a handle that loaded the index before a non-instant prune (blobs re-used from marked packs; must be readable after the next prune). Files of the source contain the serialisation of an empty directory with probability ≈ 1/40 each (tree/data id sharing). Non-trivial = a prune after a forget, or a craft operation; distinct by hash of the case.",
+        assumptions: vec![
+            "prune decisions that depend on elapsed real time are exercised only at keep-delete / keep-pack 0 and >> test duration",
+            "a non-instant prune may remove a pack only if it was already marked before that prune and keep-delete is 0",
+            "the persistent index hand-back race of check under CPU starvation is counted as inconclusive, not judged",
+        ],
+        subs: vec![Box::new(Sub {
+            name: "history",
+            cases_quick: 300,
+            cases_thorough: 8000,
+            max_shrink_iters: 250,
+            strategy,
+            run,
+        }) as Box<dyn DynSub>],
         extra: None,
     }
 }
